@@ -685,6 +685,21 @@ pub fn run_plan(
                     ));
                 }
             }
+            // a second OverlayFS instance over the same layers, built before the history, is a
+            // filesystem in a reachable state too: well-formed (C03), observers consistent (C05)
+            if let Some(t0) = &twin0 {
+                let ts = if opts.observers {
+                    full_snapshot(t0, &uni)
+                } else {
+                    let mut ts = snapshot(t0);
+                    probe_universe(t0, &uni, &mut ts);
+                    ts
+                };
+                if !ts.problems.is_empty() {
+                    return Err(fail(case, &trace, step, format!("after {}: a second OverlayFS instance over the same layers (built before the history) is inconsistent in itself: {:?}", op.render(), &ts.problems[..ts.problems.len().min(4)])));
+                }
+                sum.twin_views += 1;
+            }
             model = snap.tree;
         }
 
